@@ -83,6 +83,7 @@ theorem getItem_ok_dict {t : Tree} {k : Key} {v : Tree} (h : getItem t k = .ok v
     · next v' hv => cases h; exact ⟨a, rfl, hv⟩
     · cases h
   · cases h
+  · split at h <;> cases h
   · cases h
 
 theorem setItem_ok_dict {t : Tree} {k : Key} {v t' : Tree} (h : setItem t k v = .ok t') :
@@ -331,6 +332,13 @@ theorem splitSlash_joinSlash : ∀ (segs : List Key), segs ≠ [] → (∀ s ∈
 
 /-! ### yaml-safe conversion -/
 
+theorem Scalar.item_item (s : Scalar) : s.item.item = s.item := by cases s <;> rfl
+
+theorem Scalar.isNp_item (s : Scalar) : s.item.isNp = false := by cases s <;> rfl
+
+theorem Scalar.item_of_not_isNp (s : Scalar) (h : s.isNp = false) : s.item = s := by
+  cases s <;> first | rfl | simp [Scalar.isNp] at h
+
 mutual
   theorem arrToList_idem : ∀ t, arrToList (arrToList t) = arrToList t
     | .scalar _ => by simp [arrToList]
@@ -341,49 +349,148 @@ mutual
 end
 
 mutual
-  theorem toSafe_idem : ∀ t, toSafe (toSafe t) = toSafe t
-    | .scalar _ => by simp [toSafe]
-    | .seq .array xs => by simp [toSafe]
-    | .seq .list xs => by simp [toSafe]
-    | .seq .tuple xs => by simp [toSafe]
-    | .dict a => by simp [toSafe, toSafeA_idem a]
-  theorem toSafeA_idem : ∀ a, toSafeA (toSafeA a) = toSafeA a
-    | .nil => by simp [toSafeA]
-    | .cons _ v r => by simp [toSafeA, toSafe_idem v, toSafeA_idem r]
+  theorem itemize_idem : ∀ t, itemize (itemize t) = itemize t
+    | .scalar s => by simp [itemize, Scalar.item_item]
+    | .seq .array xs => by simp [itemize]
+    | .seq .list xs => by simp [itemize, itemizeL_idem xs]
+    | .seq .tuple xs => by simp [itemize, itemizeL_idem xs]
+    | .dict a => by simp [itemize, itemizeA_idem a]
+  theorem itemizeL_idem : ∀ ts, itemizeL (itemizeL ts) = itemizeL ts
+    | .nil => by simp [itemizeL]
+    | .cons t ts => by simp [itemizeL, itemize_idem t, itemizeL_idem ts]
+  theorem itemizeA_idem : ∀ a, itemizeA (itemizeA a) = itemizeA a
+    | .nil => by simp [itemizeA]
+    | .cons _ v r => by simp [itemizeA, itemize_idem v, itemizeA_idem r]
 end
 
 mutual
-  theorem arrayFree_arrToList : ∀ t, pureArray t = true → arrayFree (arrToList t) = true
-    | .scalar _, _ => by simp [arrToList, arrayFree]
+  /-- converting numpy scalars changes nothing in a tree PyYAML can already write -/
+  theorem itemize_of_yamlSafe : ∀ t, yamlSafe t = true → itemize t = t
+    | .scalar s, h => by
+      simp only [yamlSafe, Bool.not_eq_true'] at h
+      simp [itemize, Scalar.item_of_not_isNp s h]
+    | .seq .array xs, _ => by simp [itemize]
+    | .seq .list xs, h => by simp only [yamlSafe] at h; simp [itemize, itemizeL_of_yamlSafeL xs h]
+    | .seq .tuple xs, h => by simp only [yamlSafe] at h; simp [itemize, itemizeL_of_yamlSafeL xs h]
+    | .dict a, h => by simp only [yamlSafe] at h; simp [itemize, itemizeA_of_yamlSafeA a h]
+  theorem itemizeL_of_yamlSafeL : ∀ ts, yamlSafeL ts = true → itemizeL ts = ts
+    | .nil, _ => by simp [itemizeL]
+    | .cons t ts, h => by
+      simp only [yamlSafeL, Bool.and_eq_true] at h
+      simp [itemizeL, itemize_of_yamlSafe t h.1, itemizeL_of_yamlSafeL ts h.2]
+  theorem itemizeA_of_yamlSafeA : ∀ a, yamlSafeA a = true → itemizeA a = a
+    | .nil, _ => by simp [itemizeA]
+    | .cons _ v r, h => by
+      simp only [yamlSafeA, Bool.and_eq_true] at h
+      simp [itemizeA, itemize_of_yamlSafe v h.1, itemizeA_of_yamlSafeA r h.2]
+end
+
+mutual
+  /-- after the conversion an array-free value holds no numpy scalar either -/
+  theorem yamlSafe_itemize : ∀ t, arrayFree t = true → yamlSafe (itemize t) = true
+    | .scalar s, _ => by simp [itemize, yamlSafe, Scalar.isNp_item]
+    | .seq .array xs, h => by simp [arrayFree] at h
+    | .seq .list xs, h => by simp only [arrayFree] at h; simp [itemize, yamlSafe, yamlSafeL_itemizeL xs h]
+    | .seq .tuple xs, h => by simp only [arrayFree] at h; simp [itemize, yamlSafe, yamlSafeL_itemizeL xs h]
+    | .dict a, h => by simp only [arrayFree] at h; simp [itemize, yamlSafe, yamlSafeA_itemizeA a h]
+  theorem yamlSafeL_itemizeL : ∀ ts, arrayFreeL ts = true → yamlSafeL (itemizeL ts) = true
+    | .nil, _ => by simp [itemizeL, yamlSafeL]
+    | .cons t ts, h => by
+      simp only [arrayFreeL, Bool.and_eq_true] at h
+      simp [itemizeL, yamlSafeL, yamlSafe_itemize t h.1, yamlSafeL_itemizeL ts h.2]
+  theorem yamlSafeA_itemizeA : ∀ a, arrayFreeA a = true → yamlSafeA (itemizeA a) = true
+    | .nil, _ => by simp [itemizeA, yamlSafeA]
+    | .cons _ v r, h => by
+      simp only [arrayFreeA, Bool.and_eq_true] at h
+      simp [itemizeA, yamlSafeA, yamlSafe_itemize v h.1, yamlSafeA_itemizeA r h.2]
+end
+
+mutual
+  theorem arrayFree_of_yamlSafe : ∀ t, yamlSafe t = true → arrayFree t = true
+    | .scalar _, _ => by simp [arrayFree]
+    | .seq .array xs, h => by simp [yamlSafe] at h
+    | .seq .list xs, h => by simp only [yamlSafe] at h; simp [arrayFree, arrayFreeL_of_yamlSafeL xs h]
+    | .seq .tuple xs, h => by simp only [yamlSafe] at h; simp [arrayFree, arrayFreeL_of_yamlSafeL xs h]
+    | .dict a, h => by simp only [yamlSafe] at h; simp [arrayFree, arrayFreeA_of_yamlSafeA a h]
+  theorem arrayFreeL_of_yamlSafeL : ∀ ts, yamlSafeL ts = true → arrayFreeL ts = true
+    | .nil, _ => by simp [arrayFreeL]
+    | .cons t ts, h => by
+      simp only [yamlSafeL, Bool.and_eq_true] at h
+      simp [arrayFreeL, arrayFree_of_yamlSafe t h.1, arrayFreeL_of_yamlSafeL ts h.2]
+  theorem arrayFreeA_of_yamlSafeA : ∀ a, yamlSafeA a = true → arrayFreeA a = true
+    | .nil, _ => by simp [arrayFreeA]
+    | .cons _ v r, h => by
+      simp only [yamlSafeA, Bool.and_eq_true] at h
+      simp [arrayFreeA, arrayFree_of_yamlSafe v h.1, arrayFreeA_of_yamlSafeA r h.2]
+end
+
+mutual
+  theorem yamlSafe_arrToList : ∀ t, pureArray t = true → yamlSafe (arrToList t) = true
+    | .scalar s, h => by simpa [arrToList, yamlSafe, pureArray] using h
     | .seq .array xs, h => by
       simp only [pureArray] at h
-      simp [arrToList, arrayFree, arrayFreeL_arrToListL xs h]
+      simp [arrToList, yamlSafe, yamlSafeL_arrToListL xs h]
     | .seq .list xs, h => by simp [pureArray] at h
     | .seq .tuple xs, h => by simp [pureArray] at h
     | .dict _, h => by simp [pureArray] at h
-  theorem arrayFreeL_arrToListL : ∀ ts, pureArrayL ts = true → arrayFreeL (arrToListL ts) = true
-    | .nil, _ => by simp [arrToListL, arrayFreeL]
+  theorem yamlSafeL_arrToListL : ∀ ts, pureArrayL ts = true → yamlSafeL (arrToListL ts) = true
+    | .nil, _ => by simp [arrToListL, yamlSafeL]
     | .cons t ts, h => by
       simp only [pureArrayL, Bool.and_eq_true] at h
-      simp [arrToListL, arrayFreeL, arrayFree_arrToList t h.1, arrayFreeL_arrToListL ts h.2]
+      simp [arrToListL, yamlSafeL, yamlSafe_arrToList t h.1, yamlSafeL_arrToListL ts h.2]
 end
 
 mutual
-  theorem arrayFree_toSafe : ∀ t, plain t = true → arrayFree (toSafe t) = true
-    | .scalar _, _ => by simp [toSafe, arrayFree]
+  theorem yamlSafe_toSafe : ∀ t, plain t = true → yamlSafe (toSafe t) = true
+    | .scalar s, _ => by simp [toSafe, yamlSafe, Scalar.isNp_item]
     | .seq .array xs, h => by
       simp only [plain] at h
-      simp [toSafe, arrayFree, arrayFreeL_arrToListL xs h]
-    | .seq .list xs, h => by simp only [plain] at h; simp [toSafe, arrayFree, h]
-    | .seq .tuple xs, h => by simp only [plain] at h; simp [toSafe, arrayFree, h]
+      simp [toSafe, yamlSafe, yamlSafeL_arrToListL xs h]
+    | .seq .list xs, h => by simp only [plain] at h; simp [toSafe, yamlSafe, yamlSafeL_itemizeL xs h]
+    | .seq .tuple xs, h => by simp only [plain] at h; simp [toSafe, yamlSafe, yamlSafeL_itemizeL xs h]
     | .dict a, h => by
       simp only [plain] at h
-      simp [toSafe, arrayFree, arrayFreeA_toSafeA a h]
-  theorem arrayFreeA_toSafeA : ∀ a, plainA a = true → arrayFreeA (toSafeA a) = true
-    | .nil, _ => by simp [toSafeA, arrayFreeA]
+      simp [toSafe, yamlSafe, yamlSafeA_toSafeA a h]
+  theorem yamlSafeA_toSafeA : ∀ a, plainA a = true → yamlSafeA (toSafeA a) = true
+    | .nil, _ => by simp [toSafeA, yamlSafeA]
     | .cons _ v r, h => by
       simp only [plainA, Bool.and_eq_true] at h
-      simp [toSafeA, arrayFreeA, arrayFree_toSafe v h.1, arrayFreeA_toSafeA r h.2]
+      simp [toSafeA, yamlSafeA, yamlSafe_toSafe v h.1, yamlSafeA_toSafeA r h.2]
+end
+
+mutual
+  theorem plain_of_yamlSafe : ∀ t, yamlSafe t = true → plain t = true
+    | .scalar _, _ => by simp [plain]
+    | .seq .array xs, h => by simp [yamlSafe] at h
+    | .seq .list xs, h => by simp only [yamlSafe] at h; simp [plain, arrayFreeL_of_yamlSafeL xs h]
+    | .seq .tuple xs, h => by simp only [yamlSafe] at h; simp [plain, arrayFreeL_of_yamlSafeL xs h]
+    | .dict a, h => by simp only [yamlSafe] at h; simp [plain, plainA_of_yamlSafeA a h]
+  theorem plainA_of_yamlSafeA : ∀ a, yamlSafeA a = true → plainA a = true
+    | .nil, _ => by simp [plainA]
+    | .cons _ v r, h => by
+      simp only [yamlSafeA, Bool.and_eq_true] at h
+      simp [plainA, plain_of_yamlSafe v h.1, plainA_of_yamlSafeA r h.2]
+end
+
+theorem arrayFreeA_toSafeA (a : Assoc) (h : plainA a = true) : arrayFreeA (toSafeA a) = true :=
+  arrayFreeA_of_yamlSafeA _ (yamlSafeA_toSafeA a h)
+
+mutual
+  /-- a second conversion changes nothing (on the documented option values; an object array holding
+      lists of numpy scalars would be the exception) -/
+  theorem toSafe_idem : ∀ t, plain t = true → toSafe (toSafe t) = toSafe t
+    | .scalar s, _ => by simp [toSafe, Scalar.item_item]
+    | .seq .array xs, h => by
+      simp only [plain] at h
+      simp [toSafe, itemizeL_of_yamlSafeL _ (yamlSafeL_arrToListL xs h)]
+    | .seq .list xs, _ => by simp [toSafe, itemizeL_idem xs]
+    | .seq .tuple xs, _ => by simp [toSafe, itemizeL_idem xs]
+    | .dict a, h => by simp only [plain] at h; simp [toSafe, toSafeA_idem a h]
+  theorem toSafeA_idem : ∀ a, plainA a = true → toSafeA (toSafeA a) = toSafeA a
+    | .nil, _ => by simp [toSafeA]
+    | .cons _ v r, h => by
+      simp only [plainA, Bool.and_eq_true] at h
+      simp [toSafeA, toSafe_idem v h.1, toSafeA_idem r h.2]
 end
 
 mutual
@@ -399,16 +506,39 @@ mutual
 end
 
 mutual
+  theorem eraseKinds_itemize : ∀ t, eraseKinds (itemize t) = eraseKinds t
+    | .scalar s => by simp [itemize, eraseKinds, Scalar.item_item]
+    | .seq .array xs => by simp [itemize]
+    | .seq .list xs => by simp [itemize, eraseKinds, eraseKindsL_itemizeL xs]
+    | .seq .tuple xs => by simp [itemize, eraseKinds, eraseKindsL_itemizeL xs]
+    | .dict a => by simp [itemize, eraseKinds, eraseKindsA_itemizeA a]
+  theorem eraseKindsL_itemizeL : ∀ ts, eraseKindsL (itemizeL ts) = eraseKindsL ts
+    | .nil => by simp [itemizeL]
+    | .cons t ts => by simp [itemizeL, eraseKindsL, eraseKinds_itemize t, eraseKindsL_itemizeL ts]
+  theorem eraseKindsA_itemizeA : ∀ a, eraseKindsA (itemizeA a) = eraseKindsA a
+    | .nil => by simp [itemizeA]
+    | .cons _ v r => by simp [itemizeA, eraseKindsA, eraseKinds_itemize v, eraseKindsA_itemizeA r]
+end
+
+mutual
   theorem eraseKinds_toSafe : ∀ t, eraseKinds (toSafe t) = eraseKinds t
-    | .scalar _ => by simp [toSafe]
+    | .scalar s => by simp [toSafe, eraseKinds, Scalar.item_item]
     | .seq .array xs => by simp [toSafe, eraseKinds, eraseKindsL_arrToListL xs]
-    | .seq .list xs => by simp [toSafe]
-    | .seq .tuple xs => by simp [toSafe, eraseKinds]
+    | .seq .list xs => by simp [toSafe, eraseKinds, eraseKindsL_itemizeL xs]
+    | .seq .tuple xs => by simp [toSafe, eraseKinds, eraseKindsL_itemizeL xs]
     | .dict a => by simp [toSafe, eraseKinds, eraseKindsA_toSafeA a]
   theorem eraseKindsA_toSafeA : ∀ a, eraseKindsA (toSafeA a) = eraseKindsA a
     | .nil => by simp [toSafeA]
     | .cons _ v r => by simp [toSafeA, eraseKindsA, eraseKinds_toSafe v, eraseKindsA_toSafeA r]
 end
+
+theorem lookup_toSafeA_scalar : ∀ (a : Assoc) (key : Key) (s : Scalar), a.lookup key = some (.scalar s) →
+    (toSafeA a).lookup key = some (.scalar s.item)
+  | .nil, _, _, h => by simp [Assoc.lookup] at h
+  | .cons k' v r, key, s, h => by
+    by_cases hk : k' = key
+    · simp [Assoc.lookup, hk] at h; subst h; simp [toSafeA, toSafe, Assoc.lookup, hk]
+    · simp [Assoc.lookup, hk] at h; simp [toSafeA, Assoc.lookup, hk, lookup_toSafeA_scalar r key s h]
 
 theorem strOkA_toSafeA : ∀ a, strOkA (toSafeA a) = strOkA a
   | .nil => by simp [toSafeA]
